@@ -814,10 +814,12 @@ package parser
 // They are defined by Parse for the fresh journal it returns and never change afterwards.
 //@ specfun parsedFrom(j *ast.Journal) string
 //@ specfun nErrs(j *ast.Journal) int
+//@ specfun errLine(j *ast.Journal, l int) bool
 
 //@ func Parse
 //@   props C06 C11
 //@   ghostdef [parsed_from] parsedFrom(result0) == input && nErrs(result0) == len(result1)
+//@   ghostdef [error_lines] forall l int :: {errLine(result0, l)} errLine(result0, l) <==> (exists k int :: {result1[k]} 0 <= k && k < len(result1) && result1[k].Pos.Line - 1 == l)
 //@   ensures [nonnil] result0 != nil && fresh(result0)
 //@   ensures [directive_ranges] forall d int :: {result0.Directives[d]} 0 <= d && d < len(result0.Directives) ==> DirOK(result0.Directives[d], len(input))
 //@   ensures [head_ranges] forall i int :: {result0.Transactions[i]} 0 <= i && i < len(result0.Transactions) ==> TxHeadOK(result0.Transactions[i], len(input))
